@@ -144,6 +144,12 @@ def check(fs, pref):
         Parser().parse(b'require ["envelope", "regex"]; if envelope :regex "from" "x" { keep; }')
     fs2 = FiltersSet("t", pref[0], pref[1])
     fs2.from_parser_result(p)
+    # loading is reading: the parsed script can be loaded again (into another set) and gives the same set
+    fs2b = FiltersSet("t", pref[0], pref[1])
+    fs2b.from_parser_result(p)
+    if str(fs2b) != str(fs2) or [(f["name"], f.get("description")) for f in fs2b.filters] != [(f["name"], f.get("description")) for f in fs2.filters]:
+        return "the same parsed script loaded a second time gives another set: names %r vs %r" % (
+            [f["name"] for f in fs2b.filters], [f["name"] for f in fs2.filters]), text
     a = [(f["name"], f["enabled"], f.get("description") or "") for f in fs.filters]
     b = [(f["name"], f["enabled"], f.get("description") or "") for f in fs2.filters]
     if [x[0] for x in a] != [x[0] for x in b]:
